@@ -55,18 +55,21 @@ def ns_scenario(seed, n, profile="swarm"):
         kwargs.update(checkpoint_on_iteration=True, checkpoint_interval=10 ** 6)
     # uninformed phase
     mu = r.random()
-    if mu < 0.3:
+    if mu < 0.08:
         kwargs["maximum_uninformed"] = False
-    elif mu < 0.7:
+    elif mu < 0.6:
         kwargs["maximum_uninformed"] = r.choice([nlive // 2, nlive, 5])
     # proposal class and population options
     pc = r.random()
     if pc < 0.15:
         kwargs["flow_proposal_class"] = "AugmentedFlowProposal"
         kwargs["augment_dims"] = r.choice([1, 2])
-    elif pc < 0.22 and profile != "noclustering":
+    elif pc < 0.22 and profile != "noclustering" and nlive >= 20:
+        # faiss k-means needs at least 16 training points
         kwargs["flow_proposal_class"] = "ClusteringFlowProposal"
     lp = r.choice(LATENT + ["truncated_gaussian"] * 3)
+    if kwargs.get("flow_proposal_class") == "AugmentedFlowProposal":
+        lp = "truncated_gaussian"
     kwargs["latent_prior"] = lp
     if lp in ("gaussian", "uniform", "flow"):
         kwargs["constant_volume_mode"] = False
@@ -98,7 +101,18 @@ def ns_scenario(seed, n, profile="swarm"):
         kwargs["reparameterisations"] = {"null": {"parameters": names}}
     elif rp < 0.6:
         kwargs["fallback_reparameterisation"] = r.choice(["rescaletobounds", None, "zscore"])
-    kwargs["flow_config"] = tiny_flow(r, ("realnvp", "realnvp", "realnvp", "maf", "nsf"))
+    if kwargs.get("flow_proposal_class") == "AugmentedFlowProposal":
+        # the augmented proposal needs a mask: coupling flows only
+        kwargs["flow_config"] = tiny_flow(r, ("realnvp",))
+    else:
+        kwargs["flow_config"] = tiny_flow(r, ("realnvp", "realnvp", "realnvp", "maf", "nsf"))
+    if kwargs.get("maximum_uninformed") is False:
+        # the flow proposal then also draws the initial live points, with no
+        # worst point to compute a radius from: only the fixed-radius
+        # (constant volume) configuration can do that
+        kwargs["latent_prior"] = "truncated_gaussian"
+        kwargs.pop("constant_volume_mode", None)
+        kwargs.pop("check_acceptance", None)
     kwargs["training_config"] = training_config(r)
     # training policies
     if r.random() < 0.3:
